@@ -550,7 +550,7 @@ type Options struct {
 
 	// Presentation variants every conforming reader must tolerate.
 	XencPrefix string // namespace prefix of the xmlenc elements: "" = "xenc"; "-" = default namespace (no prefix)
-	DsPrefix   string // namespace prefix of the xmldsig elements: "" = "ds"
+	DsPrefix   string // namespace prefix of the xmldsig elements: "" = "ds"; "-" = default namespace declared on each outermost xmldsig element
 	Extras     bool   // add the optional schema parts that carry no key material: KeySize, Recipient, ds:KeyName, CarriedKeyName, EncryptionProperties, MimeType
 	KeyIDRef   bool   // EncryptedData/KeyInfo carries a ds:RetrievalMethod URI="#<KeyID>" (sibling layout; needs KeyID)
 }
@@ -574,7 +574,22 @@ func (n names) x(tag string) string {
 	}
 	return n.xp + ":" + tag
 }
-func (n names) d(tag string) string { return n.dp + ":" + tag }
+func (n names) d(tag string) string {
+	if n.dp == "-" {
+		return tag
+	}
+	return n.dp + ":" + tag
+}
+
+// dTop creates an xmldsig child under a parent that is NOT itself an xmldsig element:
+// with the default-namespace spelling the child has to declare the namespace itself.
+func (n names) dTop(parent *etree.Element, tag string) *etree.Element {
+	e := parent.CreateElement(n.d(tag))
+	if n.dp == "-" {
+		e.CreateAttr("xmlns", NSDsig)
+	}
+	return e
+}
 func (n names) declX(e *etree.Element) {
 	if n.xp == "-" {
 		e.CreateAttr("xmlns", NSXenc)
@@ -582,7 +597,32 @@ func (n names) declX(e *etree.Element) {
 		e.CreateAttr("xmlns:"+n.xp, NSXenc)
 	}
 }
-func (n names) declD(e *etree.Element) { e.CreateAttr("xmlns:"+n.dp, NSDsig) }
+func (n names) declD(e *etree.Element) {
+	if n.dp != "-" {
+		e.CreateAttr("xmlns:"+n.dp, NSDsig)
+	}
+}
+
+// KeyInfoElement returns an empty, detached ds:KeyInfo in the spelling o selects.
+func (o Options) KeyInfoElement() *etree.Element {
+	nm := o.names()
+	ki := etree.NewElement(nm.d("KeyInfo"))
+	if nm.dp == "-" {
+		ki.CreateAttr("xmlns", NSDsig)
+	} else {
+		nm.declD(ki)
+	}
+	return ki
+}
+
+// DsTag spells an xmldsig element name (for children of a KeyInfoElement) the way o selects.
+func (o Options) DsTag(tag string) string { return o.names().d(tag) }
+
+// XencTag spells an xmlenc element name the way o selects; XencDecl declares the namespace on e.
+func (o Options) XencTag(tag string) string { return o.names().x(tag) }
+
+// XencDecl declares the xmlenc namespace on e in the spelling o selects.
+func (o Options) XencDecl(e *etree.Element) { o.names().declX(e) }
 
 func b64(b []byte, wrap int) string {
 	s := base64.StdEncoding.EncodeToString(b)
@@ -670,7 +710,7 @@ func EncryptParts(plaintext []byte, cert *x509.Certificate, o Options) (data, ke
 			em.CreateElement(nm.x("OAEPparams")).SetText(b64(o.OAEPParams, 0))
 		}
 		if o.Digest != "" {
-			em.CreateElement(nm.d("DigestMethod")).CreateAttr("Algorithm", o.Digest)
+			nm.dTop(em, "DigestMethod").CreateAttr("Algorithm", o.Digest)
 		}
 		if o.KeyTransport == RSAOAEP11 && o.MGF != "" {
 			m := em.CreateElement("xenc11:MGF")
@@ -679,13 +719,13 @@ func EncryptParts(plaintext []byte, cert *x509.Certificate, o Options) (data, ke
 		}
 	}
 	if o.EmbedCert {
-		ki := key.CreateElement(nm.d("KeyInfo"))
+		ki := nm.dTop(key, "KeyInfo")
 		if o.Extras {
 			ki.CreateElement(nm.d("KeyName")).SetText("recipient key")
 		}
 		ki.CreateElement(nm.d("X509Data")).CreateElement(nm.d("X509Certificate")).SetText(b64(cert.Raw, o.WrapBase64))
 	} else if o.Extras {
-		key.CreateElement(nm.d("KeyInfo")).CreateElement(nm.d("KeyName")).SetText("recipient key")
+		nm.dTop(key, "KeyInfo").CreateElement(nm.d("KeyName")).SetText("recipient key")
 	}
 	kcd := key.CreateElement(nm.x("CipherData"))
 	kcd.CreateElement(nm.x("CipherValue")).SetText(b64(wrapped, o.WrapBase64))
@@ -703,9 +743,7 @@ func EncryptElement(plaintext []byte, cert *x509.Certificate, opts Options) (*et
 		return nil, err
 	}
 	if key != nil {
-		nm := opts.names()
-		ki := etree.NewElement(nm.d("KeyInfo"))
-		nm.declD(ki)
+		ki := opts.KeyInfoElement()
 		ki.AddChild(key)
 		data.InsertChildAt(1, ki) // after EncryptionMethod, before CipherData
 	}
@@ -733,8 +771,7 @@ func EncryptedAssertion(plaintext []byte, cert *x509.Certificate, opts Options) 
 	if key != nil {
 		if opts.KeyIDRef && opts.KeyID != "" {
 			nm := opts.names()
-			ki := etree.NewElement(nm.d("KeyInfo"))
-			nm.declD(ki)
+			ki := opts.KeyInfoElement()
 			rm := ki.CreateElement(nm.d("RetrievalMethod"))
 			rm.CreateAttr("Type", NSXenc+"EncryptedKey")
 			rm.CreateAttr("URI", "#"+opts.KeyID)
